@@ -211,8 +211,9 @@ def run(tier: str, seed: int) -> Report:
         "replaced by a constant clock in the harness process",
         "RNG() without seeds (the security seed) is made reproducible by a counter-seeded subclass installed as "
         "gallia.services.uds.server.RNG in the harness process; seeded uses are untouched",
-        "'parsable' is the verdict of gallia's own request codec (UDSRequest.parse_dynamic is not a RawRequest); "
-        "that codec is the subject of C01 (a request the codec cannot round-trip counts as unparsable here)",
+        "'parsable' is the verdict of gallia's own request codec (UDSRequest.parse_dynamic is not a RawRequest), taken "
+        "in two pristine interpreters (opposite classification orders, must agree) and overruled by the ISO 14229-1 "
+        "length rules where the standard fixes the length; that codec is the subject of C01",
         "the reply before suppression is read by wrapping the bound method respond_without_state_change of the "
         "server instance; a black-box family without that hook is validated as well",
         "security level numbering is gallia's (level = SendKey sub-function - 1); default session = 1",
